@@ -60,6 +60,7 @@ struct ReadOnly : Profile {
         p.knobs["ndds"] = kr.chance(0.5) ? kr.range(2, 8) : 16;
         p.knobs["oldversion"] = kr.chance(0.35) ? 1 : 0;
         p.knobs["with_writer"] = kr.chance(0.15) ? 1 : 0; // another client holds the file open for writing during phase B (SD calls only)
+        p.knobs["reader_in_c"] = kr.chance(0.35) ? 1 + (int64_t)kr.below(3) : 0; // a reader is half way through an element while phase C opens the file for writing
         Rng r = rng.sub(2);
         int na = (int)r.range(3, 10), nb = (int)r.range(10, thorough ? 60 : 40);
         for (int i = 0; i < na; i++) {
@@ -70,6 +71,8 @@ struct ReadOnly : Profile {
         }
         if (r.chance(0.2))
             p.ops.push_back(mkop(0, "hempty", {})); // a descriptor without data: a writer started an element and never wrote it
+        if (r.chance(0.12))
+            p.ops.push_back(mkop(0, "hnoversion", {})); // the application removed the library-version element: the file has none
         p.ops.push_back(mkop(0, "end", {}));
         p.ops.push_back(mkop(0, "freeze", {}));
         std::vector<Op> reads;
@@ -540,6 +543,7 @@ struct ReadOnly : Profile {
         bool                  frozen = false;
         int                   refused = 0;
         int32                 writer_fid = FAIL;
+        bool                  noversion = false; // the file has no library-version element: whoever has it open for writing adds one
         for (size_t i = 0; i < p.ops.size(); i++) {
             const Op &o = p.ops[i];
             ctx.begin_op((int)i);
@@ -549,6 +553,15 @@ struct ReadOnly : Profile {
                     if (aid == FAIL || Hendaccess(aid) == FAIL)
                         ctx.fail("workload-call-failed", "workload-call-failed:hempty", "creating a descriptor without data failed");
                     ctx.probe("descriptor-without-data");
+                }
+                continue;
+            }
+            if (o.kind == "hnoversion") {
+                if (mx.need_h()) {
+                    if (Hdeldd(mx.fid, DFTAG_VERSION, 1) == FAIL)
+                        ctx.fail("workload-call-failed", "workload-call-failed:hnoversion", "removing the version element failed");
+                    ctx.probe("file-without-version-element");
+                    noversion = true;
                 }
                 continue;
             }
@@ -571,7 +584,7 @@ struct ReadOnly : Profile {
                         fclose(jf);
                     }
                 }
-                if (p.knob("with_writer", 0)) {
+                if (p.knob("with_writer", 0) && !noversion) {
                     // Another client has the file open for writing (and edits nothing).  The access mode of the H layer belongs
                     // to the file, not to the id, so H-level calls are left out of such a phase B; an SD handle opened for
                     // reading has its own mode and must stay read-only whoever else has the file open.
@@ -622,8 +635,65 @@ struct ReadOnly : Profile {
                 auto raw_before = raw_elements(ctx, mx.path);
                 mx.acc_mode = DFACC_RDWR;
                 mx.call_failed = false;
-                if (mx.need_h() && mx.need_sd() && mx.need_gr() && mx.need_an())
+                // A reader may be in the middle of an element when the file is opened for writing: the open swaps the stream
+                // of the shared file record under it.  The reader goes on where it was, and what it gets is the element.
+                int32                ro = FAIL, raid = FAIL, rlen = 0, rgot = 0;
+                uint16               rt = 0, rr = 0;
+                std::vector<uint8_t> rbuf;
+                uint32               v0[3] = {0, 0, 0};
+                char                 vs0[81] = "";
+                intn                 hadver = FAIL;
+                int                  rmode = (int)p.knob("reader_in_c", 0);
+                if (rmode) {
+                    ro = Hopen(mx.path.c_str(), DFACC_READ, 0);
+                    if (ro == FAIL)
+                        ctx.fail("read-failed", "read-failed:Hopen", "Hopen(READ) for the reader of phase C failed");
+                    hadver = Hgetfileversion(ro, &v0[0], &v0[1], &v0[2], vs0);
+                    uint16 t = 0, r = 0;
+                    int32  off = 0, len = 0;
+                    while (Hfind(ro, DFTAG_WILDCARD, DFREF_WILDCARD, &t, &r, &off, &len, DF_FORWARD) != FAIL)
+                        if (!(t & 0x4000) && t != DFTAG_VERSION && len >= 2 && (rlen == 0 || rmode == 3)) {
+                            rt   = t; // mode 3: the last such element, else the first
+                            rr   = r;
+                            rlen = len;
+                        }
+                    if (rlen) {
+                        rbuf.assign((size_t)rlen, 0);
+                        raid = Hstartread(ro, rt, rr);
+                        rgot = raid == FAIL ? FAIL : Hread(raid, rmode == 2 ? rlen - 1 : rlen / 2, rbuf.data());
+                        if (raid == FAIL || rgot <= 0)
+                            ctx.fail("read-failed", "read-failed:reader-in-c", strf("the reader of phase C could not start reading %u/%u", rt, rr));
+                        ctx.probe("reader-half-way-while-opened-for-writing");
+                    }
+                }
+                bool hopen = mx.need_h();
+                if (hopen && ro != FAIL) {
+                    uint32 v1[3] = {0, 0, 0};
+                    char   vs1[81] = "";
+                    intn   hasver = Hgetfileversion(mx.fid, &v1[0], &v1[1], &v1[2], vs1);
+                    ctx.st.checks++;
+                    if (!noversion && (hasver != hadver || memcmp(v0, v1, sizeof v0) || strcmp(vs0, vs1)))
+                        ctx.fail("phasec-changed", "phasec-changed:version-under-reader",
+                                 strf("the library version of the file reads %u.%u.%u before and %u.%u.%u after the file was opened for writing next to a reader", v0[0],
+                                      v0[1], v0[2], v1[0], v1[1], v1[2]));
+                    if (raid != FAIL) {
+                        int32 rest = Hread(raid, rlen - rgot, rbuf.data() + rgot);
+                        std::vector<uint8_t> whole((size_t)rlen + 8, 0);
+                        int32 all = Hgetelement(ro, rt, rr, whole.data());
+                        if (rest != rlen - rgot || all != rlen)
+                            ctx.fail("read-failed", "read-failed:reader-in-c", strf("the reader of phase C could not finish reading %u/%u (%d, %d of %d)", rt, rr, rest, all, rlen));
+                        if (memcmp(rbuf.data(), whole.data(), (size_t)rlen))
+                            ctx.fail("phasec-changed", "phasec-changed:reader-continues",
+                                     strf("a reader half way through element %u/%u when the file was opened for writing got other bytes for the rest of it", rt, rr));
+                        ctx.st.checks++;
+                    }
+                }
+                if (hopen && mx.need_sd() && mx.need_gr() && mx.need_an())
                     mx.end_session();
+                if (raid != FAIL && Hendaccess(raid) == FAIL)
+                    ctx.fail("close-failed", "close-failed:reader-in-c", "Hendaccess of the reader of phase C failed");
+                if (ro != FAIL && Hclose(ro) == FAIL)
+                    ctx.fail("close-failed", "close-failed:reader-in-c", strf("Hclose of the reader of phase C failed: %s", herr().c_str()));
                 if (mx.call_failed)
                     ctx.fail("phasec-failed", "phasec-failed:" + mx.failed_call, "opening read-write and closing without edits: " + mx.failed_call + " failed");
                 mx.acc_mode = DFACC_READ;
